@@ -28,29 +28,7 @@ package fs
 // ---- reader ----------------------------------------------------------------
 // Raw lines travel as non-nil buffers; delivered lines are non-nil and carry a
 // non-nil content buffer.
-//@ func (*readFile).read
-//@   requires [rawLines] rawLines != nil
-//@   chaninv rawLines [raw-nonnil] elem != nil
-//@   loop 1 invariant [message] message != nil
-//@ func (*readFile).handleReadByte
-//@   requires [message] message != nil
-//@   requires [rawLines] rawLines != nil
-//@   chaninv rawLines [raw-nonnil] elem != nil
-//@   ensures [message-kept] result1 != nil
-//@ func (*readFile).handleReadError
-//@   requires [message] message != nil
-//@   chaninv rawLines [raw-nonnil] elem != nil
-//@ func (*readFile).transmittable
-//@   requires [rawLine] rawLine != nil
-//@   assigns f.stats
-//@   ensures [content] implies(result1, result0.Content == rawLine)
-//@   requires [regex-usable] len(re.flags) >= 1 && implies(re.flags[0] == regex.Default || re.flags[0] == regex.Invert, re.re != nil)
-//@   ensures [line] result0 != nil
 //@ func (*readFile).filter
-//@   requires [regex-usable] len(re.flags) >= 1 && implies(re.flags[0] == regex.Default || re.flags[0] == regex.Invert, re.re != nil)
-//@   chaninv rawLines [raw-nonnil] elem != nil
-//@   chaninv lines [line-wellformed] elem != nil && elem.Content != nil
-//@ func (*readFile).filterWithoutLContext
 //@   requires [regex-usable] len(re.flags) >= 1 && implies(re.flags[0] == regex.Default || re.flags[0] == regex.Invert, re.re != nil)
 //@   chaninv rawLines [raw-nonnil] elem != nil
 //@   chaninv lines [line-wellformed] elem != nil && elem.Content != nil
@@ -184,3 +162,98 @@ package fs
 //@   ensures [countdown] ls.maxCount == old(ls.maxCount) - 1
 //@   ensures [abort-or-flag] (result == abortReading) == (ls.maxCount == 0 && (!ls.processAfter || ls.after == 0)) && (result == abortReading || result == nothing)
 //@   ensures [max-reached] ls.maxReached == (old(ls.maxReached) || (ls.maxCount == 0 && ls.processAfter && ls.after != 0))
+
+// ---- line assembly (C01 S2, C04) -------------------------------------------------------
+// Ghost byte strings of one read activation:
+//   g_expStr  the bytes delivered by ReadByte so far, with "\n" inserted after
+//             every run of MaxLineLength non-newline bytes (this per-byte
+//             update, stated as the effect of handleReadByte, IS the permitted
+//             transformation of the property statement);
+//   g_rawStr  the concatenation of the contents of all buffers sent to rawLines.
+// Invariant: g_rawStr + content(message) == g_expStr: no byte is dropped, added,
+// reordered or merged; at end of file (cat mode) the unterminated rest is flushed.
+
+//@ func (*readFile).read
+//@   requires [rawLines] rawLines != nil && reader != nil
+//@   requires [max] config.Server.MaxLineLength >= 1
+//@   chaninv rawLines [raw-nonnil] elem != nil
+//@   ghost-init g_expStr == ""
+//@   ghost-init g_rawStr == ""
+//@   loop 1 invariant [message] message != nil
+//@   loop 1 invariant [assembled] g_rawStr + content(message) == g_expStr
+//@   loop 1 invariant [run-bounded] len(content(message)) < config.Server.MaxLineLength && !contains(content(message), "\n")
+//@   ensures [complete-at-eof] implies(!cancelled() && isnil(result), g_rawStr == g_expStr)
+
+//@ func (*readFile).handleReadByte
+//@   requires [message] message != nil && rawLines != nil
+//@   requires [max] config.Server.MaxLineLength >= 1
+//@   requires [byte-appended] len(content(message)) >= 1 && hasSuffix(content(message), char(b)) && len(content(message)) <= config.Server.MaxLineLength && !contains(substr(content(message), 0, len(content(message)) - 1), "\n")
+//@   chaninv rawLines [raw-nonnil] elem != nil
+//@   let c == content(message)
+//@   let split == (b != 10 && len(content(message)) >= config.Server.MaxLineLength)
+//@   assigns *message, f.warnedAboutLongLine, *rawLines, *f.serverMessages, g_rawStr, g_expStr
+//@   on-send rawLines effect g_rawStr == g_rawStr + content(elem)
+//@   effect g_expStr == old(g_expStr) + char(b) + ite(split, "\n", "")
+//@   ensures [message-kept] result1 != nil
+//@   ensures [cancel-aborts] (result0 == abortReading) == cancelled() && (result0 == abortReading || result0 == nothing)
+//@   ensures [assembled] implies(!cancelled(), g_rawStr + content(result1) == old(g_rawStr) + c + ite(split, "\n", ""))
+//@   ensures [run-bounded] implies(!cancelled(), len(content(result1)) < config.Server.MaxLineLength && !contains(content(result1), "\n"))
+
+//@ func (*readFile).truncated
+//@   assigns nothing
+//@   ensures [error-when-truncated] implies(result0, !isnil(result1))
+
+//@ func (*readFile).handleReadError
+//@   requires [message] message != nil && !isnil(err)
+//@   chaninv rawLines [raw-nonnil] elem != nil
+//@   assigns *rawLines, g_rawStr
+//@   on-send rawLines effect g_rawStr == g_rawStr + content(elem)
+//@   ensures [status] result0 == abortReading || result0 == nothing
+//@   ensures [flush-at-eof] implies(!cancelled() && result0 == abortReading && isnil(result1), g_rawStr == old(g_rawStr) + content(message))
+//@   ensures [hold-partial-line] implies(result0 == nothing, g_rawStr == old(g_rawStr) && f.seekEOF && isnil(result1))
+//@   ensures [cat-stops-at-eof] implies(!f.seekEOF, result0 == abortReading)
+
+// ---- filter without context (C01 S3, C04, C07) -----------------------------------------------
+// g_inStr / g_linesStr: contents of the raw lines received / of the lines
+// delivered, each terminated by the record separator 0x1e.
+//@ func (*readFile).transmittable
+//@   requires [rawLine] rawLine != nil
+//@   requires [regex-usable] len(re.flags) >= 1 && implies(re.flags[0] == regex.Default || re.flags[0] == regex.Invert, re.re != nil)
+//@   assigns f.stats
+//@   ensures [line] result0 != nil
+//@   ensures [content] implies(result1, result0.Content == rawLine && result0.Count == f.lineCount && result0.SourceID == f.globID)
+//@   ensures [delivered-iff] result1 == (reSel(re, content(rawLine)) && !(f.canSkipLines && length >= capacity))
+//@   ensures [position-kept] f.lineCount == old(f.lineCount) && f.pos == old(f.pos)
+
+//@ func (*readFile).filterWithoutLContext
+//@   requires [regex-usable] len(re.flags) >= 1 && implies(re.flags[0] == regex.Default || re.flags[0] == regex.Invert, re.re != nil)
+//@   chaninv rawLines [raw-nonnil] elem != nil
+//@   chaninv lines [line-wellformed] elem != nil && elem.Content != nil
+//@   ghost-init g_inStr == ""
+//@   ghost-init g_linesStr == ""
+//@   ghost-init g_lastCount == f.lineCount
+//@   on-recv rawLines effect g_inStr == g_inStr + content(elem) + "\x1e"
+//@   on-send lines effect g_linesStr == g_linesStr + content(elem.Content) + "\x1e"
+//@   on-send lines effect g_lastCount == elem.Count
+//@   at-send lines [running-number] elem.Count == f.lineCount && elem.Count > g_lastCount && elem.SourceID == f.globID
+//@   loop 1 invariant [every-line-forwarded-once-in-order] implies(!cancelled() && !f.canSkipLines && re.flags[0] == regex.Noop, g_linesStr == g_inStr)
+//@   loop 1 invariant [numbers-increase] g_lastCount <= f.lineCount
+
+// ---- reader selection (C01 S1, C04) -------------------------------------------------------------
+//@ func (readFile).FilePath
+//@   assigns nothing
+//@   ensures [def] result == f.filePath
+//@ func (*readFile).makeCompressedFileReader
+//@   requires [fd] fd != nil
+//@   assigns nothing
+//@   ensures [decoder-by-suffix] implies(isnil(result1), result0 != nil && result0.src == ite(hasSuffix(f.filePath, ".gz") || hasSuffix(f.filePath, ".gzip"), "gzip", ite(hasSuffix(f.filePath, ".zst"), "zstd", "raw")))
+//@ func (*readFile).makeFileReader
+//@   assigns fs
+//@   ensures [position] implies(isnil(result2), result1 != nil && result0 != nil && result1.path == f.filePath && result1.pos == ite(f.seekEOF, "end", "start"))
+//@   ensures [decoder-by-suffix] implies(isnil(result2), result0.src == ite(hasSuffix(f.filePath, ".gz") || hasSuffix(f.filePath, ".gzip"), "gzip", ite(hasSuffix(f.filePath, ".zst"), "zstd", "raw")))
+//@ func NewCatFile
+//@   assigns nothing
+//@   ensures [cat-mode] result.readFile.filePath == filePath && result.readFile.globID == globID && !result.readFile.canSkipLines && !result.readFile.seekEOF && !result.readFile.retry
+//@ func NewTailFile
+//@   assigns nothing
+//@   ensures [tail-mode] result.readFile.filePath == filePath && result.readFile.globID == globID && result.readFile.canSkipLines && result.readFile.seekEOF && result.readFile.retry
